@@ -1,0 +1,128 @@
+//! Verification hooks: an interceptor around every storage operation of a [super::Transport].
+//!
+//! Only compiled with the `verif_hooks` feature.
+
+use std::cell::RefCell;
+use std::future::Future;
+use std::pin::pin;
+use std::sync::Arc;
+use std::task::{Context, Poll, Wake, Waker};
+use std::thread::{self, Thread};
+
+use super::record::Verb;
+use super::{DirEntry, Error, ErrorKind, Result, WriteMode};
+use crate::{BlockHash, Kind};
+
+/// What the interceptor wants done with an operation.
+#[derive(Debug, Clone, Copy, PartialEq, Eq)]
+pub enum Action {
+    /// Run the operation.
+    Proceed,
+    /// Do not touch storage; return this error.
+    Fail(ErrorKind),
+    /// Stop the world: this operation never completes.
+    ///
+    /// The interceptor is expected to keep answering `Crash` from then on.
+    Crash,
+}
+
+/// One storage operation, with its path relative to the root transport.
+#[derive(Debug)]
+pub struct Op<'a> {
+    pub verb: Verb,
+    pub path: String,
+    pub content: Option<&'a [u8]>,
+    pub mode: Option<WriteMode>,
+}
+
+/// What an operation returned.
+#[derive(Debug)]
+pub enum Outcome<'a> {
+    Unit,
+    Bytes(&'a [u8]),
+    Entries(&'a [DirEntry]),
+    Meta { kind: Kind, len: u64 },
+    Err(ErrorKind),
+}
+
+pub trait Interceptor: Send + Sync {
+    /// Called before the operation touches storage; may block the calling thread.
+    fn before(&self, op: &Op) -> Action;
+    /// Called after the operation completed (or was failed by `before`).
+    fn after(&self, op: &Op, outcome: &Outcome);
+}
+
+struct ParkWaker(Thread);
+
+impl Wake for ParkWaker {
+    fn wake(self: Arc<Self>) {
+        self.0.unpark();
+    }
+}
+
+/// Drive a future to completion on this thread, so that one storage operation is one atomic step.
+fn sync_block_on<F: Future>(f: F) -> F::Output {
+    let waker = Waker::from(Arc::new(ParkWaker(thread::current())));
+    let mut cx = Context::from_waker(&waker);
+    let mut f = pin!(f);
+    loop {
+        if let Poll::Ready(v) = f.as_mut().poll(&mut cx) {
+            return v;
+        }
+        thread::park();
+    }
+}
+
+pub(super) async fn run<'a, T, F, O>(
+    h: &dyn Interceptor,
+    op: Op<'a>,
+    fut: F,
+    outcome: O,
+) -> Result<T>
+where
+    F: Future<Output = Result<T>>,
+    O: for<'b> Fn(&'b T) -> Outcome<'b>,
+{
+    match h.before(&op) {
+        Action::Proceed => {
+            let r = sync_block_on(tokio::task::unconstrained(fut));
+            match &r {
+                Ok(v) => h.after(&op, &outcome(v)),
+                Err(e) => h.after(&op, &Outcome::Err(e.kind())),
+            }
+            r
+        }
+        Action::Fail(kind) => {
+            h.after(&op, &Outcome::Err(kind));
+            Err(Error {
+                kind,
+                source: None,
+                url: None,
+            })
+        }
+        Action::Crash => std::future::pending().await,
+    }
+}
+
+type OrderSeam = Box<dyn Fn(&mut Vec<BlockHash>)>;
+
+thread_local! {
+    static ORDER_SEAM: RefCell<Option<OrderSeam>> = const { RefCell::new(None) };
+}
+
+/// Install, for operations driven by the current thread, the function that fixes the
+/// order in which unreferenced blocks are deleted.
+pub fn set_order_seam(f: Option<OrderSeam>) {
+    ORDER_SEAM.with(|s| *s.borrow_mut() = f);
+}
+
+/// Put a list that came out of a hash set into a harness-chosen order (sorted by default).
+pub fn order_seam(mut v: Vec<BlockHash>) -> Vec<BlockHash> {
+    v.sort();
+    ORDER_SEAM.with(|s| {
+        if let Some(f) = s.borrow().as_ref() {
+            f(&mut v);
+        }
+    });
+    v
+}
